@@ -1,6 +1,103 @@
-"""C18 rules (placeholder: fail-closed until the rules are implemented)."""
-from ..loader import AnalysisError
+"""C18 - spec hashes are recorded exactly on accepted submission, touch and clean."""
+import ast
+
+from ..index import FuncInfo, dotted, walk_no_nested, loc
+from .c01 import rule_spec_clause, rule_guard_order
+from .c05 import preview_closure
+from .persist import (CORE, _calls, rule_atomic_replace, rule_close_writes, rule_exit_persists, rule_hash_after_accept)
 
 
 def run(ctx):
-    raise AnalysisError("rules for C18 not implemented yet")
+    idx = ctx.index
+    res = ctx.resolver
+
+    r1 = ctx.rule("R1", "who may record or erase a spec hash: update <- accepted submit, touch; invalidate <- clean; nothing else", min_instances=4)
+    fsh = idx.cls(f"{CORE}:FileSpecHashes")
+    allowed_update = {"gwf.scheduling:submit_backend", "gwf.plugins.touch:touch_workflow.<locals>._visit"}
+    allowed_inval = {"gwf.plugins.clean:clean"}
+    n_upd = n_inv = 0
+    for f in idx.functions.values():
+        if f.cls is not None and f.cls.name in ("FileSpecHashes", "NoopSpecHashes"):
+            continue
+        for n in walk_no_nested(f.node):
+            if not (isinstance(n, ast.Call) and isinstance(n.func, ast.Attribute)):
+                continue
+            recv = dotted(n.func.value) or ""
+            if n.func.attr == "update" and "hash" in recv:
+                n_upd += 1
+                r1.check(f.key in allowed_update, f"{f.module.relpath}::{f.qual}::update", "hash recorded by an owner (accepted submission / touch)",
+                         f"{f.qual} records a spec hash: only an accepted submission and `gwf touch` may do that", loc(n, f.module))
+            if n.func.attr == "invalidate" and "hash" in recv:
+                n_inv += 1
+                r1.check(f.key in allowed_inval, f"{f.module.relpath}::{f.qual}::invalidate", "hash erased by clean",
+                         f"{f.qual} erases a spec hash: only `gwf clean` may do that", loc(n, f.module))
+    r1.check(n_upd >= 2 and n_inv >= 1, "src/gwf::hash-writers", f"{n_upd} update site(s), {n_inv} invalidate site(s)",
+             f"found {n_upd} update and {n_inv} invalidate call sites (expected: submit_backend + touch, clean)", "src/gwf")
+    # stores into .hashes only inside the store's own methods
+    for f in idx.functions.values():
+        for n in walk_no_nested(f.node):
+            for e in res.node_effects(n, f):
+                if e.kind == "STATE_MUT" and e.detail == "hashes":
+                    own = f.cls is not None and f.cls.name == "FileSpecHashes" and f.name in ("update", "invalidate", "__attrs_post_init__", "__init__")
+                    r1.check(own, f"{f.module.relpath}::{f.qual}::hashes-store", "table written by update/invalidate/load only",
+                             f"{f.qual} writes the hash table directly", e.where)
+    rule_hash_after_accept(ctx, r1)
+    # previews leave the records unchanged
+    roots = res.command_roots()
+    preview_closure(ctx, r1, roots["status"], {}, "status")
+    preview_closure(ctx, r1, roots["run"], {"dry_run": True}, "run --dry-run")
+
+    r2 = ctx.rule("R2", "the use_spec_hashes switch (default off) selects the store; the disabled store is effect-free and never reports a change", min_instances=4)
+    gsh = idx.func(f"{CORE}:get_spec_hashes")
+    sel = {}
+    for n in walk_no_nested(gsh.node):
+        if isinstance(n, ast.If):
+            t = ast.unparse(n.test)
+            sel["test"] = t
+            for br, stmts in (("then", n.body), ("else", n.orelse)):
+                for s_ in stmts:
+                    if isinstance(s_, ast.Return) and isinstance(s_.value, ast.Call):
+                        sel[br] = dotted(s_.value.func)
+                        sel[br + "_arg"] = ast.unparse(s_.value.args[0]) if s_.value.args else None
+    r2.check(sel.get("test") in ("config.get('use_spec_hashes')", "config['use_spec_hashes']", "config.get('use_spec_hashes', False)")
+             and sel.get("then") == "FileSpecHashes" and sel.get("else") == "NoopSpecHashes",
+             f"{gsh.module.relpath}::{gsh.qual}", "FileSpecHashes iff config use_spec_hashes, else NoopSpecHashes",
+             f"the store is selected by `{sel.get('test')}` -> {sel.get('then')} / {sel.get('else')}", gsh.where)
+    arg = (sel.get("then_arg") or "").replace('"', "'")
+    r2.check(arg == "os.path.join(working_dir, '.gwf', 'spec-hashes.json')", f"{gsh.module.relpath}::{gsh.qual}::path", "records live in <project>/.gwf/spec-hashes.json",
+             f"the hash file path is `{arg}`", gsh.where)
+    try:
+        defaults = ctx.ev.eval_global("gwf.conf", "CONFIG_DEFAULTS")
+        r2.check(defaults.get("use_spec_hashes") is False, "src/gwf/conf.py::CONFIG_DEFAULTS.use_spec_hashes", "default off",
+                 f"use_spec_hashes defaults to {defaults.get('use_spec_hashes')!r}: with the default configuration a spec edit must never cause a re-run", "src/gwf/conf.py:1")
+    except Exception as exc:
+        r2.violation("src/gwf/conf.py::CONFIG_DEFAULTS", f"cannot evaluate the configuration defaults ({exc})", "src/gwf/conf.py:1")
+    noop = idx.cls(f"{CORE}:NoopSpecHashes")
+    for m in noop.methods.values():
+        _v, effs, _u = res.reach(m, stop=lambda f: f.cls is not None and f.cls.name != "NoopSpecHashes")
+        effs = [e for e in effs if e.finfo.cls is noop]
+        r2.check(not effs, f"{m.module.relpath}::{m.qual}", "effect-free", f"NoopSpecHashes.{m.name} has effects {sorted({e.kind for e in effs})}: things happen while hashing is disabled", m.where)
+
+    r3 = ctx.rule("R3", "has_changed / update / invalidate agree on key (target.name) and hash (hash_spec(target.spec)); records persist", min_instances=8)
+    rule_spec_clause(ctx, r3)
+    upd = idx.method(fsh, "update")
+    txt = ast.unparse(upd.node)
+    r3.check("self.hashes[target.name] = hash_spec(target.spec)" in txt, f"{upd.module.relpath}::{upd.qual}", "hashes[target.name] = hash_spec(target.spec)",
+             "update does not store hash_spec(target.spec) under target.name", upd.where)
+    inv = idx.method(fsh, "invalidate")
+    txt = ast.unparse(inv.node)
+    r3.check(("del self.hashes[target.name]" in txt and "KeyError" in txt) or "self.hashes.pop(target.name, None)" in txt, f"{inv.module.relpath}::{inv.qual}",
+             "erases the record under target.name", "invalidate does not erase the record stored under target.name", inv.where)
+    hs = idx.func(f"{CORE}:hash_spec")
+    r3.check("sha1(spec.encode(" in ast.unparse(hs.node) or "sha256(spec.encode(" in ast.unparse(hs.node), f"{hs.module.relpath}::{hs.qual}", "content hash of the spec text",
+             "hash_spec is not a content hash of the spec text", hs.where)
+    load = idx.method(fsh, "__attrs_post_init__")
+    lt = ast.unparse(load.node) if load else ""
+    r3.check("open(self.path)" in lt and "self.hashes = json.load(" in lt and "FileNotFoundError" in lt, f"{fsh.module.relpath}::FileSpecHashes.load",
+             "records are loaded from self.path (first use: no file is fine)", "the hash store does not load its records from its file (tolerating a missing file)", fsh.where)
+    rule_exit_persists(ctx, r3)
+    rule_close_writes(ctx, r3)
+    rule_atomic_replace(ctx, r3)
+
+    r4 = ctx.rule("R4", "the spec test is part of the staleness decision (consulted first)")
+    rule_guard_order(ctx, r4)
